@@ -195,7 +195,7 @@ def getattr_(interp, v, attr, node=None):
             return BuiltinV('dict.' + attr, DICT_IMPL[attr])
         raise Unsupported(f"attribute {attr} of type {v.name}")
     if isinstance(v, Opaque):
-        return Opaque(f"{v.what}.{attr}")
+        return Opaque(f"{v.what}.{attr}", v.prov)
     if v is None:
         raise Raised('AttributeError', ln, f"'NoneType' object has no attribute '{attr}'", implicit=True)
     if is_num(v) or isinstance(v, bool):
@@ -562,7 +562,7 @@ def getitem(interp, v, k, node=None):
             return interp.call_func(FuncV(m, f"{cls.name}.__getitem__", cls), [v, k], {}, node)
         raise Raised('TypeError', ln, f"'{v.cls.name}' object is not subscriptable", implicit=True)
     if isinstance(v, Opaque):
-        return Opaque('item')
+        return Opaque('item', v.prov)
     if isinstance(v, TypeMarker):
         return v
     if v is None:
@@ -587,6 +587,7 @@ def setitem(interp, v, k, value, node=None):
     if hasattr(v, 'sym_setitem'):
         return v.sym_setitem(interp, k, value, node)
     if isinstance(v, Opaque):
+        v.prov = v.prov | prov_of(value)
         return
     if isinstance(v, tuple):
         raise Raised('TypeError', ln, "'tuple' object does not support item assignment", implicit=True)
@@ -1193,7 +1194,7 @@ def _s_strip(interp, args, kwargs, node):
 def _s_join(interp, args, kwargs, node):
     sep, items = args[0], args[1]
     if isinstance(items, Opaque):
-        return SegStr([OpaqueHole('joined')])
+        return SegStr([OpaqueHole('joined', items.prov | prov_of(sep))])
     items = iterate(interp, items, node)
     parts = []
     for i, x in enumerate(items):
@@ -1204,7 +1205,7 @@ def _s_join(interp, args, kwargs, node):
         elif isinstance(x, NameV):
             parts.append(SegStr([OpaqueHole(x)]))
         elif isinstance(x, (Opaque, IteV)):
-            parts.append(SegStr([OpaqueHole('item')]))
+            parts.append(SegStr([OpaqueHole('item', prov_of(x))]))
         else:
             raise Raised('TypeError', getattr(node, 'lineno', None), 'sequence item: expected str instance', implicit=True)
     return mkstr(parts)
@@ -1214,14 +1215,14 @@ def _s_replace(interp, args, kwargs, node):
     s = args[0]
     if isinstance(s, str) and all(isinstance(a, (str, int)) for a in args[1:]):
         return s.replace(*args[1:])
-    return SegStr([OpaqueHole('replaced')])
+    return SegStr([OpaqueHole('replaced', prov_of(*args))])
 
 
 def _s_splitlines(interp, args, kwargs, node):
     s = args[0]
     if isinstance(s, str):
         return s.splitlines()
-    return Opaque('lines')
+    return Opaque('lines', prov_of(s))
 
 
 def _s_simple(name):
